@@ -101,6 +101,7 @@ pub fn c10(tier: Tier) -> ! {
                 (vec!["circle"], Some(if *pot == "Hard" { ShapeSpec::Circle } else { ShapeSpec::LjCircle })),
                 (vec!["trimer"], Some(if *pot == "Hard" { ShapeSpec::Trimer(0.637556, 120., 1.) } else { ShapeSpec::LjTrimer(0.637556, 120., 1.) })),
                 (vec!["trimer", "-r", "0.7", "-a", "180", "-d", "1.5"], Some(if *pot == "Hard" { ShapeSpec::Trimer(0.7, 180., 1.5) } else { ShapeSpec::LjTrimer(0.7, 180., 1.5) })),
+                (vec!["trimer", "-r", "0.5", "-a", "100", "-d", "0.8"], Some(if *pot == "Hard" { ShapeSpec::Trimer(0.5, 100., 0.8) } else { ShapeSpec::LjTrimer(0.5, 100., 0.8) })),
             ];
             for (sa, spec) in shapes {
                 for (si, set) in settings.iter().enumerate() {
@@ -164,6 +165,28 @@ pub fn c10(tier: Tier) -> ! {
             let cfam = doc["cell"]["family"].as_str().unwrap_or("");
             if fam != ita_family(c.group) || cfam != ita_family(c.group) {
                 fails.push((format!("{}: written crystal family {:?} / cell family {:?}, the group's family is {}", c.group, fam, cfam, ita_family(c.group)), case.clone()));
+            }
+            // a trimer as asked for, judged on the written numbers alone: three discs of radii 1,
+            // r, r; the outer two at the requested distance from the first, the requested angle apart
+            if c.shape_args[0] == "trimer" && c.potential == "Hard" {
+                let arg = |flag: &str, dflt: f64| c.shape_args.iter().position(|a| a == flag).and_then(|i| c.shape_args.get(i + 1)).and_then(|v| v.parse::<f64>().ok()).unwrap_or(dflt);
+                let (r, a, d) = (arg("-r", 0.637556), arg("-a", 120.), arg("-d", 1.));
+                let items = doc["shape"]["items"].as_array().cloned().unwrap_or_default();
+                let pos = |i: usize| [items[i]["position"][0].as_f64().unwrap_or(f64::NAN), items[i]["position"][1].as_f64().unwrap_or(f64::NAN)];
+                let ok = items.len() == 3 && {
+                    let (p0, p1, p2) = (pos(0), pos(1), pos(2));
+                    let (v1, v2) = (sub(p1, p0), sub(p2, p0));
+                    let ang = (dot(v1, v2) / (norm(v1) * norm(v2))).max(-1.).min(1.).acos().to_degrees();
+                    (items[0]["radius"].as_f64().unwrap_or(0.) - 1.).abs() < 1e-12
+                        && (items[1]["radius"].as_f64().unwrap_or(0.) - r).abs() < 1e-12
+                        && (items[2]["radius"].as_f64().unwrap_or(0.) - r).abs() < 1e-12
+                        && (norm(v1) - d).abs() < 1e-9
+                        && (norm(v2) - d).abs() < 1e-9
+                        && (ang - a).abs() < 1e-6
+                };
+                if !ok {
+                    fails.push((format!("{}: the written shape is not a trimer of radius {}, angle {} and distance {}", c.group, r, a, d), case.clone()));
+                }
             }
             let want_shape = c.spec.as_ref().unwrap().json();
             if !values_close(&doc["shape"], &want_shape, 1e-12) {
@@ -243,6 +266,8 @@ pub fn c10(tier: Tier) -> ! {
     // the private pipeline in-process on a recording state: which replica is written when the
     // replicas' scores agree to 0, 6, 9 or 13 digits
     let (pipes, pipes_ok) = crate::pipe::best_replica_is_written(&mut run, tier);
+    let mono = crate::pipe::more_replicas_never_worse(&mut run);
+    run.set("in_process_replica_counts_compared", mono);
     run.set("in_process_pipelines_on_a_recording_state", pipes);
     run.set("in_process_pipelines_interpretable", pipes_ok);
     // --start-config: whatever the file holds, the written structure is labelled with what was asked for
